@@ -250,7 +250,14 @@ func genExp(t *rapid.T) ExpCase {
 				o := later.Outputs[0]
 				st.Lines = append(st.Lines, lineFor(t, o, ll))
 			default:
-				st.Lines = append(st.Lines, rapid.SampledFrom([]string{"not json", "{broken", "42", "\"str\"", "[1,2]", "null"}).Draw(t, ll+".noise"))
+				if len(st.Outputs) > 0 && rapid.IntRange(0, 3).Draw(t, ll+".prefixed") == 2 {
+					// noise that begins with a message one of the outputs
+					// speaks of: not a JSON line, so not a message
+					o := st.Outputs[rapid.IntRange(0, len(st.Outputs)-1).Draw(t, ll+".pfo")]
+					st.Lines = append(st.Lines, lineFor(t, o, ll+".pf")+rapid.SampledFrom([]string{" <- not emitted, just logged", "]", `{"k":"Z"}`, " trailing"}).Draw(t, ll+".pft"))
+				} else {
+					st.Lines = append(st.Lines, rapid.SampledFrom([]string{"not json", "{broken", "42", "\"str\"", "[1,2]", "null"}).Draw(t, ll+".noise"))
+				}
 			}
 		}
 	}
